@@ -85,3 +85,7 @@ Lemma scraped_survives :
      (2, [(1, 0, 0)] ++ [(1, 4, 1); (1, 4, 0); (1, 4, 0); (1, 4, 0)] ++ [(2, 2, 0)] ++ steps 2 4);
      (1, [(1, 2, 0)] ++ steps 1 4 ++ [(2, 2, 0)] ++ steps 2 2)] = true.
 Proof. vm_compute. reflexivity. Qed.
+
+(* store.go, removeEntry: the listener's value is read only once the entry is out of its shard map (scraped) *)
+Lemma remove_value_owned_as_written : c_remove_value_owned = true.
+Proof. reflexivity. Qed.
